@@ -70,32 +70,33 @@ type Enc struct {
 }
 
 type Frame struct {
-	e          *Enc
-	fn         *ssa.Function
-	prefix     string
-	top        bool
-	depth      int
-	vals       map[ssa.Value]TV
-	tuples     map[ssa.Value][]TV
-	addrs      map[ssa.Value]*Addr
-	entry      State // state at activation entry
-	funcEntry  State // state at entry of the top-level function (for freshness / frame)
-	edges      map[[2]int]*edge
-	loops      map[*ssa.BasicBlock]*LoopInfo
-	rets       []*retRec
-	contract   *FuncContract
-	specVars   map[string]TV
-	autoDeref  map[string]bool
-	names      map[string][]nameRef
-	callOrd    map[string]int
-	kindOrd    map[string]int
-	reach      string
-	st         State
-	label      string // obligation name prefix
-	topFrame   *Frame
-	closures   map[ssa.Value]*ssa.MakeClosure
-	ifaceVals  map[ssa.Value]TV
-	sliceOfArr map[ssa.Value]ssa.Value
+	e            *Enc
+	fn           *ssa.Function
+	prefix       string
+	top          bool
+	depth        int
+	vals         map[ssa.Value]TV
+	tuples       map[ssa.Value][]TV
+	addrs        map[ssa.Value]*Addr
+	entry        State // state at activation entry
+	funcEntry    State // state at entry of the top-level function (for freshness / frame)
+	edges        map[[2]int]*edge
+	loops        map[*ssa.BasicBlock]*LoopInfo
+	rets         []*retRec
+	contract     *FuncContract
+	specVars     map[string]TV
+	autoDeref    map[string]bool
+	names        map[string][]nameRef
+	callOrd      map[string]int
+	kindOrd      map[string]int
+	reach        string
+	st           State
+	label        string // obligation name prefix
+	topFrame     *Frame
+	closures     map[ssa.Value]*ssa.MakeClosure
+	ifaceVals    map[ssa.Value]TV
+	sliceOfArr   map[ssa.Value]ssa.Value
+	pendingGhost []TV
 }
 
 func (fr *Frame) vc() *VC { return fr.e.vc }
@@ -446,6 +447,16 @@ func (e *Enc) finishRoots(fr *Frame) {
 func (fr *Frame) typeInvs(st State) string {
 	vc := fr.vc()
 	var out []string
+	for _, g := range vc.cs.GhostFields {
+		// every object satisfies the definition of its ghost field
+		ti := &TypeInv{Struct: g.Struct, Self: g.Self, Clause: &Clause{Kind: "typeinv", E: &EBin{"==", &EField{&EIdent{g.Self}, g.Name}, g.Def}, Src: g.Self + "." + g.Name + " == " + g.Src}}
+		f, err := fr.typeInvFormula(ti, st)
+		if err != nil {
+			vc.addErr("ghostfield %s.%s: %v", g.Struct, g.Name, err)
+			continue
+		}
+		out = append(out, f)
+	}
 	for _, ti := range vc.cs.TypeInvs {
 		f, err := fr.typeInvFormula(ti, st)
 		if err != nil {
@@ -475,13 +486,15 @@ func (fr *Frame) typeInvFormula(ti *TypeInv, st State) (string, error) {
 		srt, _, _ := vc.fieldSort(ti.Struct, f.Name)
 		pats = append(pats, ":pattern ("+sel(vc.mem(st, fieldMem(ti.Struct, f.Name), srt), r)+")")
 	}
+	// ghost fields are deliberately not used as triggers: a recursive ghost definition (the tree of a node mentions the
+	// trees of its children) would otherwise unfold without bound
 	return fmt.Sprintf("(forall ((%s Int)) (! (=> (and (< 0 %s) (< %s %s)) %s) %s))", r, r, r, n, body.T, strings.Join(pats, " ")), nil
 }
 
 // typeInvMems: memories the type invariants read (conservative: all fields of
 // the structs that have invariants and of structs they point to).
 func (e *Enc) typeInvTouches(mod map[string]string) bool {
-	if len(e.vc.cs.TypeInvs) == 0 {
+	if len(e.vc.cs.TypeInvs) == 0 && len(e.vc.cs.GhostFields) == 0 {
 		return false
 	}
 	for m := range mod {
